@@ -82,6 +82,14 @@ def gen(ctx):
         for g in C.enum_graphs(n, C.ADMG_STATES_CYC + [("U",), ("U", "D>"), ("U", "B")]):
             i += 1
             yield {"g": g, "fam": fams[i % len(fams)], "src": "exh%d" % n}
+    # an undirected SELF LOOP is an undirected edge too: never accepted (seen only through neighbours / edge data)
+    for n in (1, 2, 3, 4):
+        for t in range(6):
+            g = C.rand_dag_order_graph(rng, n, [("D>",), ("D>",), ("B",)], density=1.0 if t % 2 == 0 else 0.6)
+            g = make_ancestral(g) if n > 1 else g
+            g["U"] = [[t % n, t % n]]
+            i += 1
+            yield {"g": g, "fam": fams[i % len(fams)], "src": "undirected-self-loop"}
     keep = 1.0      # all 46656 four-node graphs in both tiers
     for g in C.enum_graphs(4, C.ADMG_STATES):
         if keep < 1.0 and rng.random() > keep:
